@@ -227,7 +227,7 @@ var specs = map[string]Spec{
 		QuickShards: 16, ThoroughShards: 16, QuickWatchdog: 8 * time.Minute, ThoroughWatchdog: 60 * time.Minute,
 		Level:       "exploration",
 		LevelText:   "The real namespace translator (request and response side) runs on one minimal message per structural path to a namespace-name field for every request/response/stream message type of both services (paths enumerated from the protobuf descriptors, each message type at most twice per path), on every history-event path placed inside every history-event blob site (alone, between and before plain events), on every history-event type carrying a workflow-event link (alone and next to a link-less event of the same type) and carrying several links of which only a later or only the first names a namespace (serialized on every blob site and inline wherever a root holds events directly), and on random populated messages; the result is compared with an independent descriptor-driven translator that has no skip list and no Go-field-name table. Any message on which the implementation's shortcut changes the outcome differs from the oracle by construction.",
-		LevelNote:   "Trusted: the oracle's definition of a namespace-name field (string fields named namespace / workflow_namespace / parent_workflow_namespace and NamespaceInfo.name; 142 of the 180 *namespace* string fields in the closure, the rest are ids) and the reviewed table of 11 history-event blob sites. The assembled interceptor chain is covered by the wire engine.",
+		LevelNote:   "Trusted: the oracle's definition of a namespace-name field (string fields named namespace / workflow_namespace / parent_workflow_namespace and NamespaceInfo.name; 142 of the 180 *namespace* string fields in the closure, the rest are ids) and the reviewed table of 11 history-event blob sites. The assembled interceptor chain is covered by the wire engine. Every blob x event-path case is repeated with a neighbouring event whose failure message holds invalid UTF-8 (bytes patched into the serialized batch): a batch that needs the legacy UTF-8 repair must still be translated; judged when the repaired result has the same name sites as the clean twin (what the legacy repair itself drops is not this property's business).",
 		Technique:   "runtime monitor: differential execution of the real translator against an independent protoreflect oracle over descriptor-enumerated paths + random messages",
 		DesignRef:   "DESIGN.md §4 C12",
 		Rule:        "cases = one per root message type (all its paths and blob x event-path placements) + blocks of 50 random populated messages; distinct = distinct (root, path) and (root, blob path, event path) pairs; all non-trivial",
@@ -257,7 +257,7 @@ var specs = map[string]Spec{
 		QuickShards: 16, ThoroughShards: 16, QuickWatchdog: 8 * time.Minute, ThoroughWatchdog: 60 * time.Minute,
 		Level:       "exploration",
 		LevelText:   "The real search-attribute translator runs on one message per structural path to a search-attributes container (typed SearchAttributes and bare map<string,Payload>) in every AdminService request/response type, on every container path of a history event placed in every history-blob site, and on random admin messages; expected result from an independent oracle: mapped keys renamed to their counterpart (direction by request/response side), unmapped keys and all payloads untouched, key count preserved. For every WorkflowService method, messages with mapped keys go through the real TranslationInterceptor (MatchMethod consulted as in production) and must come out unchanged.",
-		LevelNote:   "Key sets never contain an unmapped key equal to a mapping target (the property's domain). AddSearchAttributesRequest (map<string,IndexedValueType>) and RemoveSearchAttributesRequest ([]string) are not containers in the property's sense; the translator's 'unhandled type' error on them is recorded as an observation in DESIGN.md, not judged.",
+		LevelNote:   "Key sets never contain an unmapped key equal to a mapping target (the property's domain). AddSearchAttributesRequest (map<string,IndexedValueType>) and RemoveSearchAttributesRequest ([]string) are not containers in the property's sense; the translator's 'unhandled type' error on them is recorded as an observation in DESIGN.md, not judged. Every blob x event-path case is repeated with a neighbouring event whose failure message holds invalid UTF-8: a batch that needs the legacy UTF-8 repair must still have its keys renamed (judged when the repaired result has the same containers as the clean twin).",
 		Technique:   "runtime monitor: differential execution of the real search-attribute translator against an independent key-renaming oracle over descriptor-enumerated container paths + random messages",
 		DesignRef:   "DESIGN.md §4 C14",
 		Rule:        "cases = one per root type (all container paths, blob x event container paths; exclusion clause for workflow-service types) + random blocks; distinct = (root, path) pairs",
@@ -272,7 +272,7 @@ var specs = map[string]Spec{
 		QuickShards: 16, ThoroughShards: 16, QuickWatchdog: 8 * time.Minute, ThoroughWatchdog: 60 * time.Minute,
 		Level:       "exploration",
 		LevelText:   "For every unary request type of both services and every structural path to a namespace name (also inside every history-blob site), the real interceptors composed in production order (translation, then access control, then a recording handler) are called with that one site naming a forbidden namespace (must be PermissionDenied and the handler not reached) and naming the allowed one (must be forwarded); four variants: no translation, translation with names given in remote form (only a check running after translation decides right), remote-looking-allowed-but-unmapped names, and the translation-bypass header. Random populated requests with all sites allowed and then one flipped cover combinations. ListNamespaces through the real workflow-service handler must return exactly the allowed namespaces (in remote form).",
-		LevelNote:   "In-process part: that the assembled inbound server really installs the chain in this order, on both transports, is observed by the wire engine (C15/C16). Empty names are recorded, not judged.",
+		LevelNote:   "In-process part: that the assembled inbound server really installs the chain in this order, on both transports, is observed by the wire engine (C15/C16). Empty names are recorded, not judged. A forbidden name inside a history batch that needs UTF-8 repair first (invalid bytes in a neighbouring event's failure message) must be refused as well; if the legacy repair dropped the event naming it (event types unknown to the 1.22 schema) the name does not reach the local cluster and the case is counted, not judged.",
 		Technique:   "runtime monitor: exhaustive path-wise probing of the real interceptor chain with a recording terminal handler (reached / not reached, status code)",
 		DesignRef:   "DESIGN.md §4 C16",
 		Rule:        "cases = one per unary method (all paths x 4 variants x {forbidden, allowed}, blob x event paths, random combinations) + ListNamespaces block; distinct = (method, variant, path) triples",
@@ -361,7 +361,7 @@ var specs = map[string]Spec{
 		QuickShards: 8, ThoroughShards: 16, QuickWatchdog: 10 * time.Minute, ThoroughWatchdog: 60 * time.Minute,
 		Level:       "exploration",
 		LevelText:   "A real ClusterConnection is assembled on loopback (TCP inbound server, and mux-server inbound reached over a real yamux session) between two generic fake clusters that accept and record every method of both services. Every method of WorkflowService and AdminService from the service descriptors (154, the streaming one opened as a stream) is called on the remote-facing server, once without and once with the translation-bypass header, workflow methods first and admin methods first (the same server instance serves the whole sequence), under allow-lists {policy with empty lists, all, singletons incl. the two names that exist in both services, random subsets} and under no policy. Oracle: a non-listed admin method and RegisterNamespace/DeprecateNamespace under any policy are answered PermissionDenied and the fake local cluster recorded no call; every other method is forwarded exactly once (or is Unimplemented by the proxy and not forwarded); without a policy nothing is denied; the local-facing server is unaffected.",
-		LevelNote:   "Real sockets and real time: a transport error or deadline is inconclusive, never a violation. Requests are empty messages (namespace contents are C16's business).",
+		LevelNote:   "Real sockets and real time: a transport error or deadline is inconclusive, never a violation. Requests are empty messages (namespace contents are C16's business). Every method of every policy case is also called with the intra-proxy marker headers set by the remote caller: methods outside the allow-list must still be refused (allowed methods carrying the marker are not judged).",
 		Technique:   "runtime monitor: exhaustive method enumeration against the assembled proxy with a recording fake cluster (call log + status code oracle)",
 		DesignRef:   "DESIGN.md §4 C15",
 		Rule:        "cases = (policy/allow-list, transport, call order); each case calls all 154 methods twice (with/without bypass header); distinct = cases",
